@@ -413,7 +413,11 @@ func EntVariants(levels []zapcore.Level) []Ent {
 			Ent{Level: l, Time: NormalTime, Name: "n", Caller: zapcore.EntryCaller{Defined: false, File: "/left/over.go", Line: 3, Function: "left.Over"}, Message: "undefined caller with left-over strings"},
 			// a defined caller without a function name (zapcore.NewEntryCaller gives exactly this; frames without symbols)
 			Ent{Level: l, Time: NormalTime, Name: "n", Caller: zapcore.EntryCaller{Defined: true, File: "/src/pkg/file.go", Line: 9}, Message: "caller without function name"},
-			Ent{Level: l, Caller: zapcore.EntryCaller{Defined: true, File: "/src/pkg/file.go", Line: 9}, Message: "m"})
+			Ent{Level: l, Caller: zapcore.EntryCaller{Defined: true, File: "/src/pkg/file.go", Line: 9}, Message: "m"},
+			// texts that themselves end with a line ending: the entry's own terminator still follows
+			Ent{Level: l, Time: NormalTime, Message: "ends with a newline\n"},
+			Ent{Level: l, Time: NormalTime, Message: "ends with CRLF\r\n", Stack: "stack ends with a newline\n"},
+			Ent{Level: l, Message: "\n"})
 	}
 	return out
 }
